@@ -837,10 +837,13 @@ fn gen_codec(seed: u64, n: u64, out: &mut Out) {
             let blob2 = blob.clone();
             let lv = level.unwrap_or(0);
             let rust = catch(move || deser_rust(func, &blob2, maxv, strictv, lv)).unwrap_or_else(|p| json!({"panic": p}));
-            out.emit(&json!({"ev": "deser", "case": case, "fn": func, "fmt": fmt, "mutation": mutation, "blob": bytes_json(&blob),
-                "max": n_le(maxv as u128), "strict": strictv,
-                "opt_max": max.map(|m| m.to_string()), "opt_strict": strict, "opt_level": level.map(|l| l.to_string()),
-                "rust": rust}));
+            let mut ev = json!({"ev": "deser", "case": case, "fn": func, "fmt": fmt, "mutation": mutation, "blob": bytes_json(&blob),
+                "max": n_le(maxv as u128), "strict": strictv, "rust": rust});
+            // options as passed by the Python caller; an absent key = the binding's default (no JSON nulls in traces)
+            if let Some(m) = max { ev["opt_max"] = json!(m.to_string()); }
+            if let Some(s) = strict { ev["opt_strict"] = json!(s); }
+            if let Some(l) = level { ev["opt_level"] = json!(l.to_string()); }
+            out.emit(&ev);
         }
         if case % 2 == 0 {
             let rust = match serialized_length_from_bytes(&blob) {
@@ -851,7 +854,7 @@ fn gen_codec(seed: u64, n: u64, out: &mut Out) {
             let hashes = r.chance(1, 2);
             let rust = match parse_triples(&mut Cursor::new(&blob[..]), hashes) {
                 Ok((t, h)) => json!({"ok": true, "triples": triples_json(&t),
-                    "hashes": h.map(|hs| Value::Array(hs.iter().map(|x| bytes_json(x)).collect()))}),
+                    "hashes": Value::Array(h.unwrap_or_default().iter().map(|x| bytes_json(x)).collect())}),
                 Err(e) => json!({"ok": false, "msg": e.to_string()}),
             };
             out.emit(&json!({"ev": "triples", "case": case, "blob": bytes_json(&blob), "hashes": hashes, "rust": rust}));
@@ -992,7 +995,7 @@ fn gen_blobs(seed: u64, n: u64, out: &mut Out) {
         let blob2 = blob.clone();
         let rt = catch(move || match parse_triples(&mut Cursor::new(&blob2[..]), true) {
             Ok((t, h)) => json!({"ok": true, "triples": triples_json(&t),
-                "hashes": h.map(|hs| Value::Array(hs.iter().map(|x| bytes_json(x)).collect()))}),
+                "hashes": Value::Array(h.unwrap_or_default().iter().map(|x| bytes_json(x)).collect())}),
             Err(e) => json!({"ok": false, "msg": e.to_string()}),
         }).unwrap_or_else(|p| json!({"panic": p}));
         out.emit(&json!({"ev": "pydeser", "case": case, "class": class, "blob": bytes_json(&blob), "rust": rust, "rust_triples": rt}));
